@@ -5,8 +5,11 @@
    the span table are not modelled cell by cell; for them, and for the composition with the Arrow transport, the tie is
    the equivalence predicate of Otlp/Equiv.v evaluated in Coq on the real input and output of every batch of generated
    histories, plus the table-level comparison of the model decoder with the real one.  That resource/scope identifiers
-   are injective (needed for regrouping) is established for the fixed code by the run-time comparison only. *)
+   are injective (needed for regrouping: spans of different resources/scopes must not be merged) is a theorem about
+   Otlp/Ids.v, whose composition is compared character for character with the real ResourceID/ScopeID on every run; the
+   unique decodability of the strconv/hex atom renderers is its (explicit) hypothesis. *)
 From Verif Require Import Base.ListX Obf.Obfuscate Otlp.Equiv Otap.Tables Otap.Attrs.
+From Verif Require Otlp.Ids.
 
 (* Attribute tables (resource, scope, span: 16-bit parents; event, link: 32-bit): whatever order the sorter produced,
    every parent gets back exactly its own attributes. *)
@@ -46,3 +49,17 @@ Example C01_example :
   let rows := [(([1], VStr [7]), 3); (([2], VInt 5), 1); (([1], VStr [7]), 1); (([1], VStr [7]), 65535)] in
   attrs_dec 65536 (attrs_enc 65536 rows) = rows /\ map snd (attrs_enc 65536 rows) = [3; 1; 1; 65534].
 Proof. vm_compute. split; reflexivity. Qed.
+
+(* ResourceID, ScopeID and ValueID (ids.go, after the fix: type tags + quoted strings) are injective for arbitrarily
+   nested attribute values, given that strconv.Quote is self-delimiting and the number / hex renderers are uniquely
+   decodable before one of , ] } | (Ids.atoms_ok): resources and scopes are grouped together only if their attributes
+   (as sorted entry lists), dropped counts and schema URLs — and for scopes name and version — are all equal. *)
+Theorem C01_identifiers_injective : forall D q fi fd fb fx fu canon,
+  Ids.atoms_ok D q fi fd fb fx fu ->
+  (forall a d u a' d' u', Ids.resource_id D q fi fd fb fx fu canon a d u = Ids.resource_id D q fi fd fb fx fu canon a' d' u' ->
+     canon a = canon a' /\ d = d' /\ u = u') /\
+  (forall n v a d u n' v' a' d' u', Ids.scope_id D q fi fd fb fx fu canon n v a d u = Ids.scope_id D q fi fd fb fx fu canon n' v' a' d' u' ->
+     n = n' /\ v = v' /\ canon a = canon a' /\ d = d' /\ u = u') /\
+  (forall v v' r r', Ids.T r -> Ids.T r' -> Ids.ev D q fi fd fb fx v ++ r = Ids.ev D q fi fd fb fx v' ++ r' -> v = v' /\ r = r').
+Proof. exact Ids.ids_injective. Qed.
+Print Assumptions C01_identifiers_injective.
